@@ -22,7 +22,7 @@ CONFIGS = [  # (class, table, p_f, p_i)
 def grids():
     return {"A": sim.time_grid("quadratic", 8, 2.0), "B": sim.time_grid("uniform", 8, 3.0),
             "C": sim.time_grid("geometric", 11, 0.0),
-            "D": np.concatenate([[0.0], np.geomspace(0.5, 5e3, 7)])}  # same length as A and B; runs to depletion
+            "D": np.concatenate([[0.0], np.geomspace(0.5, 1e7, 15)])}  # runs to complete depletion (profile stops moving)
 
 
 def schedules(p_f, p_i):
